@@ -10,8 +10,14 @@
   the hierarchy edge wins (`parent_child_not_import`, `collision_counterexample`). Imports of the importing file's
   own ancestor packages ARE import edges, in the model as in the specification.
 
-  The AST walk is a parameter (each file comes with all its import statements); the directory walk is taken from
-  `ScanHyps` (property C04), whose decidable form is `scanCheck`.
+  In the first sections the AST walk is a parameter (each file comes with all its import statements); the directory
+  walk is taken from `ScanHyps` (property C04), whose decidable form is `scanCheck`.
+
+  Section "the AST walk" (audit finding F1): the walk of `ImportConverter.convert` is modelled (`collectImports`, a
+  stack loop over a file's flat node list) and proved to reach EVERY import node of the tree exactly once, whatever
+  the depth, the classes of the enclosing nodes and the names of the fields they sit in (`collect_all_imports`); the
+  pre-fix walk that follows only the field `body` does not (`walk_body_only_counterexample`). The graph-level theorem
+  is restated for files that come with their trees (`scan_imports_exact_tree_ast`).
 
   Last section (`…_tree`): `ScanHyps` is discharged by the C04 walk theorems from the Bool-valued tree predicate
   `treeWFFor` (Bridge/ScanTree.lean), so the graph-level statements hold for every well-formed directory tree; since
@@ -22,6 +28,9 @@ import Bridge.ScanTree
 import PtaProofs.Lemmas.ScanStmt
 import PtaProofs.Lemmas.ScanImports
 import PtaProofs.Lemmas.ScanCompose
+import Bridge.ScanAst
+import PtaProofs.Lemmas.AstWalk
+import PtaProofs.Lemmas.AstScan
 namespace Pta.C02
 open Pta PtaSpec
 
@@ -323,5 +332,204 @@ example :
 example :
     treeWFFor (isExcluded (fun _ _ => false) exWalkOpts.exclusions) "/x/r".toList ["a".toList] exWalk = true ∧
     mpOK exWalk ["a".toList] = true := by decide
+
+/-! ### the AST walk (audit finding F1)
+
+  "… whether at module level or nested at any depth inside functions, classes or any branch of any compound statement
+  (if/else, try/except/else/finally, loops and their else, with, match cases)". A file's AST is a flat node list
+  (`AstNode`: path from the module node, kind, name of the parent's field it sits in); `collectImports` is the stack
+  loop of `ImportConverter.convert`; the specification's `allImports` is simply every import node of the tree. -/
+
+/-- The walk collects every import statement of the tree, and nothing else, each exactly once: the collected
+    statements are a permutation of the statements of ALL import nodes — for any depth, any node classes, ANY field
+    names (no statement position is skipped). `astOK`: paths unique, every node's parent listed, no import node
+    below an import node. -/
+theorem collect_all_imports (nodes : List AstNode) (hwf : astOK nodes = true) :
+    ((collectImports nodes).map toSStmt).Perm (allImports (nodes.map toSNode)) :=
+  AstWalk.collect_all_imports_lemma hwf
+
+/-- the same, as membership -/
+theorem collect_all_imports_mem (nodes : List AstNode) (hwf : astOK nodes = true) (st : SStmt) :
+    st ∈ (collectImports nodes).map toSStmt ↔ st ∈ allImports (nodes.map toSNode) :=
+  (collect_all_imports nodes hwf).mem_iff
+
+/-- the same in the model's vocabulary: a permutation of the import nodes' statements, in list order -/
+theorem collect_all_imports_model (nodes : List AstNode) (hwf : astOK nodes = true) :
+    (collectImports nodes).Perm (nodes.filterMap AstNode.stmt?) :=
+  AstWalk.collectImports_perm (AstWalk.astWF_of_astOK hwf)
+
+/-- every single import node is found, wherever it sits -/
+theorem import_node_collected (nodes : List AstNode) (hwf : astOK nodes = true) (n : AstNode) (hn : n ∈ nodes)
+    (st : ImportStmt) (hst : n.stmt? = some st) : st ∈ collectImports nodes :=
+  (collect_all_imports_model nodes hwf).mem_iff.mpr (List.mem_filterMap.mpr ⟨n, hn, hst⟩)
+
+/-- the file
+    ```
+    import os                                  # Module.body
+    if c: import r.b                           # If.body
+    else: from . import k                      # If.orelse
+    try: pass
+    except E: from .. import a                 # Try.handlers -> ExceptHandler.body
+    else: import r.a.k                         # Try.orelse
+    finally: import json                       # Try.finalbody
+    for i in x: pass
+    else: import r.c                           # For.orelse
+    match v:
+        case 1: from r.a import k, zz          # Match.cases -> match_case.body
+    class C:
+        def f(self):
+            with w: import r.d                 # ClassDef.body -> FunctionDef.body -> With.body
+    ```
+    (statement positions only, as the harness sends it) -/
+def exAst : List AstNode :=
+  [ { path := [], kind := .other "Module".toList },
+    { path := [0], kind := .imp ["os".toList], field := "body".toList },
+    { path := [1], kind := .other "If".toList, field := "body".toList },
+    { path := [1, 0], kind := .imp ["r.b".toList], field := "body".toList },
+    { path := [1, 1], kind := .impFrom none ["k".toList] 1, field := "orelse".toList },
+    { path := [2], kind := .other "Try".toList, field := "body".toList },
+    { path := [2, 0], kind := .other "Pass".toList, field := "body".toList },
+    { path := [2, 1], kind := .other "ExceptHandler".toList, field := "handlers".toList },
+    { path := [2, 1, 0], kind := .impFrom none ["a".toList] 2, field := "body".toList },
+    { path := [2, 2], kind := .imp ["r.a.k".toList], field := "orelse".toList },
+    { path := [2, 3], kind := .imp ["json".toList], field := "finalbody".toList },
+    { path := [3], kind := .other "For".toList, field := "body".toList },
+    { path := [3, 0], kind := .other "Pass".toList, field := "body".toList },
+    { path := [3, 1], kind := .imp ["r.c".toList], field := "orelse".toList },
+    { path := [4], kind := .other "Match".toList, field := "body".toList },
+    { path := [4, 0], kind := .other "match_case".toList, field := "cases".toList },
+    { path := [4, 0, 0], kind := .impFrom (some "r.a".toList) ["k".toList, "zz".toList] 0, field := "body".toList },
+    { path := [5], kind := .other "ClassDef".toList, field := "body".toList },
+    { path := [5, 0], kind := .other "FunctionDef".toList, field := "body".toList },
+    { path := [5, 0, 0], kind := .other "With".toList, field := "body".toList },
+    { path := [5, 0, 0, 0], kind := .imp ["r.d".toList], field := "body".toList } ]
+
+/-- non-vacuity of `collect_all_imports`, and the walk evaluated: all nine imports are found — in `body`, `orelse`,
+    `handlers` → `body`, `finalbody`, a loop's `orelse`, `cases` → `body`, class → function → `with` — in the order of
+    the Python walk (depth-first, last child first); the pre-fix walk finds three of them -/
+example :
+    astOK exAst = true ∧
+    collectImports exAst =
+      [ .imp ["r.d".toList], .impFrom (some "r.a".toList) ["k".toList, "zz".toList] 0, .imp ["r.c".toList],
+        .imp ["json".toList], .imp ["r.a.k".toList], .impFrom none ["a".toList] 2, .impFrom none ["k".toList] 1,
+        .imp ["r.b".toList], .imp ["os".toList] ] ∧
+    exAst.filterMap AstNode.stmt? =
+      [ .imp ["os".toList], .imp ["r.b".toList], .impFrom none ["k".toList] 1, .impFrom none ["a".toList] 2,
+        .imp ["r.a.k".toList], .imp ["json".toList], .imp ["r.c".toList],
+        .impFrom (some "r.a".toList) ["k".toList, "zz".toList] 0, .imp ["r.d".toList] ] ∧
+    collectBodyOnly exAst = [ .imp ["r.d".toList], .imp ["r.b".toList], .imp ["os".toList] ] := by decide
+
+/-- `if c: import a` / `else: import b` -/
+def exOrelse : List AstNode :=
+  [ { path := [], kind := .other "Module".toList },
+    { path := [0], kind := .other "If".toList, field := "body".toList },
+    { path := [0, 0], kind := .imp ["a".toList], field := "body".toList },
+    { path := [0, 1], kind := .imp ["b".toList], field := "orelse".toList } ]
+
+/-- What `collect_all_imports` rules out (defect F-C02a, fixed by 203ca2f): the walk that descends only through the
+    field `body` misses the import in the `else` branch of a well-formed tree; the walk of the library finds it. -/
+theorem walk_body_only_counterexample :
+    astOK exOrelse = true ∧
+    ImportStmt.imp ["b".toList] ∈ exOrelse.filterMap AstNode.stmt? ∧
+    ImportStmt.imp ["b".toList] ∉ collectBodyOnly exOrelse ∧
+    ImportStmt.imp ["b".toList] ∈ collectImports exOrelse ∧
+    ¬ (collectBodyOnly exOrelse).Perm (exOrelse.filterMap AstNode.stmt?) := by
+  refine ⟨by decide, by decide, by decide, by decide, fun h => ?_⟩
+  have := h.length_eq
+  revert this
+  decide
+
+/-- The fuel `collectImports` fixes (`nodes.length + 1` iterations) suffices on every tree: the `while` loop has
+    terminated by then, further iterations change nothing. -/
+theorem collect_fuel_suffices (nodes : List AstNode) (hwf : astOK nodes = true) (k : Nat) :
+    walkLoop (fun _ => true) nodes (nodes.length + 1 + k) (astRoots nodes) [] = collectImports nodes :=
+  AstWalk.collectImports_fuel (AstWalk.astWF_of_astOK hwf) k
+
+/-- The hypothesis "no import node below an import node" is about the encoding, not about Python: the walk does not
+    look below an import node (its children in the real AST are `alias` nodes, never statements), so a list that
+    hangs an import below an import is not a statement tree, and the two sides differ on it. Listing the `alias`
+    nodes (the complete AST rather than the statement positions) is fine. -/
+theorem import_below_import_counterexample :
+    astOK [ { path := [], kind := .imp ["a".toList] }, { path := [0], kind := .imp ["b".toList] } ] = false ∧
+    collectImports [ { path := [], kind := .imp ["a".toList] }, { path := [0], kind := .imp ["b".toList] } ] =
+      [ .imp ["a".toList] ] ∧
+    astOK [ { path := [], kind := .other "Module".toList },
+            { path := [0], kind := .imp ["a".toList], field := "body".toList },
+            { path := [0, 0], kind := .other "alias".toList, field := "names".toList } ] = true := by decide
+
+/-! #### graph level, files with their trees -/
+
+section tree_ast
+variable (mt : Str → Str → Bool) (base root : Str) (mp : List Str) (entries : List Entry) (o : ScanOptions)
+  (hwf : treeWFFor (isExcluded mt o.exclusions) base mp entries = true) (hmp : mpOK entries mp = true)
+  (hroot : compWF root = true)
+  (hxx : o.excludeExternal = true) (hlim : o.levelLimit = none) (hext : o.externalExclusions.isEmpty = true)
+  (htree : ∀ e ∈ entries, astOK e.tree = true)
+  (hst : ∀ e ∈ entries, ∀ st ∈ allImports (e.tree.map toSNode), stmtOK st = true)
+include hwf hmp hroot hxx hlim hext htree hst
+
+/-- C02, graph level, with the walk inside. Every file entry carries its AST (`Entry.tree`); the MODEL's statements
+    are what `collectImports` — the walk of `ImportConverter.convert` — collects (`Entry.withCollected`); the
+    SPECIFICATION's statements are all import nodes of the tree (`toSEntriesAst`, no walk). The scan raises
+    exactly when the specification has no answer, and otherwise the import pairs of the graph are exactly the
+    specification's edges: every import statement, at any depth in any branch, yields its edge, and only those. -/
+theorem scan_imports_exact_tree_ast :
+    match scanImports root (toSEntriesAst (isExcluded mt o.exclusions) base entries) mp with
+    | none => generateGraph mt base root mp (entries.map Entry.withCollected) o = .error .lookupError
+    | some is => ∃ g, generateGraph mt base root mp (entries.map Entry.withCollected) o = .ok g ∧
+        ∀ u v, (u, v) ∈ g.importPairs ↔ ∃ e ∈ is, u = render e.1 ∧ v = render e.2 :=
+  AstScan.scan_imports_tree_ast_lemma hwf hmp hroot hxx hlim hext htree hst
+
+/-- the weaker reading — `scan_imports_exact_tree` instantiated at the entries with collected statements (the
+    specification sees the statements the walk collected) -/
+theorem scan_imports_exact_tree_collected :
+    match scanImports root (toSEntries (isExcluded mt o.exclusions) base (entries.map Entry.withCollected)) mp with
+    | none => generateGraph mt base root mp (entries.map Entry.withCollected) o = .error .lookupError
+    | some is => ∃ g, generateGraph mt base root mp (entries.map Entry.withCollected) o = .ok g ∧
+        ∀ u v, (u, v) ∈ g.importPairs ↔ ∃ e ∈ is, u = render e.1 ∧ v = render e.2 :=
+  scan_imports_exact_tree mt base root mp (entries.map Entry.withCollected) o
+    (by rw [AstWalk.treeWFFor_withCollected]; exact hwf) (by rw [AstWalk.mpOK_withCollected]; exact hmp)
+    hroot hxx hlim hext (by
+      intro e' he' st hs
+      obtain ⟨e, he, rfl⟩ := List.mem_map.mp he'
+      exact hst e he _ ((collect_all_imports_mem e.tree (htree e he) _).mp (List.mem_map_of_mem hs)))
+
+end tree_ast
+
+/-- `r/a/` with `m.py` (the file `exAst`) and `k.py`; `r/b.py`, `r/c.py`, `r/d.py` (no imports: a tree with the module
+    node only) -/
+def exAstWalk : List Entry :=
+  [ { rel := ["a".toList], isDir := true },
+    { rel := ["a".toList, "m.py".toList], isDir := false, tree := exAst },
+    { rel := ["a".toList, "k.py".toList], isDir := false, tree := [{ path := [], kind := .other "Module".toList }] },
+    { rel := ["b.py".toList], isDir := false, tree := [{ path := [], kind := .other "Module".toList }] },
+    { rel := ["c.py".toList], isDir := false, tree := [{ path := [], kind := .other "Module".toList }] },
+    { rel := ["d.py".toList], isDir := false, tree := [{ path := [], kind := .other "Module".toList }] } ]
+
+/-- non-vacuity of `scan_imports_exact_tree_ast`: the tree meets every hypothesis -/
+example :
+    treeWFFor (isExcluded (fun _ _ => false) exOpts.exclusions) "/x/r".toList [] exAstWalk = true ∧
+    mpOK exAstWalk [] = true ∧ compWF "r".toList = true ∧
+    exOpts.excludeExternal = true ∧ exOpts.levelLimit = none ∧ exOpts.externalExclusions.isEmpty = true ∧
+    (∀ e ∈ exAstWalk, astOK e.tree = true) ∧
+    (∀ e ∈ exAstWalk, ∀ st ∈ allImports (e.tree.map toSNode), stmtOK st = true) := by decide
+
+set_option maxRecDepth 20000 in
+/-- … and there the specification's edges (from the trees) and the import pairs of the model's graph (from the
+    walk): the imports in `else`, `except`, `finally`, `for … else`, `case` and class → def → `with` are all edges -/
+example :
+    scanImports "r".toList (toSEntriesAst (isExcluded (fun _ _ => false) exOpts.exclusions) "/x/r".toList exAstWalk) [] =
+      some [ (["r".toList, "a".toList, "m".toList], ["r".toList, "b".toList]),
+             (["r".toList, "a".toList, "m".toList], ["r".toList, "a".toList, "k".toList]),
+             (["r".toList, "a".toList, "m".toList], ["r".toList, "a".toList]),
+             (["r".toList, "a".toList, "m".toList], ["r".toList, "a".toList, "k".toList]),
+             (["r".toList, "a".toList, "m".toList], ["r".toList, "c".toList]),
+             (["r".toList, "a".toList, "m".toList], ["r".toList, "a".toList, "k".toList]),
+             (["r".toList, "a".toList, "m".toList], ["r".toList, "a".toList]),
+             (["r".toList, "a".toList, "m".toList], ["r".toList, "d".toList]) ] ∧
+    (generateGraph (fun _ _ => false) "/x/r".toList "r".toList [] (exAstWalk.map Entry.withCollected) exOpts).toOption.map
+        (·.importPairs) =
+      some [ ("r.a.m".toList, "r.d".toList), ("r.a.m".toList, "r.a.k".toList), ("r.a.m".toList, "r.a".toList),
+             ("r.a.m".toList, "r.c".toList), ("r.a.m".toList, "r.b".toList) ] := by decide
 
 end Pta.C02
